@@ -42,11 +42,15 @@ def dummy : It := ⟨0, 0, 0, 0⟩
 
 /-- Remove what cannot influence any later step: the ghost fields; the *contents* of the buffer of
 a forwarder that has left its loop (only `fwdTake`, enabled in `idle`, reads them; `send` reads the
-length while the subscriber is still in `eventChs`); everything about a subscriber that is `done`. -/
+length while the subscriber is still in `eventChs` — and not even that once its exit channel is
+closed, because `skipExit` is then enabled whenever `send` is and leads to the same state up to that
+buffer); everything about a subscriber that is `done`. -/
 def stripSub (u : Sub) : Sub :=
   match u.pc with
   | .done => { buf := [], pc := .done, delivered := [], ctxDone := true, exitClosed := true, joinedAt := 0, missed := false }
-  | .exiting | .wantLock => { u with buf := u.buf.map (fun _ => dummy), delivered := [], joinedAt := 0, missed := false }
+  | .exiting | .wantLock =>
+    -- once the exit channel is closed `skipExit` is always enabled and differs from `send` only in the dead buffer
+    { u with buf := if u.exitClosed then [] else u.buf.map (fun _ => dummy), delivered := [], joinedAt := 0, missed := false }
   | _ => { u with delivered := [], joinedAt := 0, missed := false }
 
 def strip (s : Batcher.State) : Batcher.State :=
